@@ -156,3 +156,65 @@ func pathOverlapLoose(a, b []ResolvedElem) bool {
 	}
 	return true
 }
+
+// MapExpr rebuilds an expression bottom-up, replacing every node by f(node).
+func MapExpr(e Expr, f func(Expr) Expr) Expr {
+	if e == nil {
+		return nil
+	}
+	switch x := e.(type) {
+	case Cmp:
+		x.L, x.R = MapExpr(x.L, f), MapExpr(x.R, f)
+		return f(x)
+	case Between:
+		x.V, x.Lo, x.Hi = MapExpr(x.V, f), MapExpr(x.Lo, f), MapExpr(x.Hi, f)
+		return f(x)
+	case In:
+		x.V = MapExpr(x.V, f)
+		list := make([]Expr, len(x.List))
+		for i, a := range x.List {
+			list[i] = MapExpr(a, f)
+		}
+		x.List = list
+		return f(x)
+	case Logic:
+		x.L, x.R = MapExpr(x.L, f), MapExpr(x.R, f)
+		return f(x)
+	case Not:
+		x.X = MapExpr(x.X, f)
+		return f(x)
+	case Func:
+		args := make([]Expr, len(x.Args))
+		for i, a := range x.Args {
+			args[i] = MapExpr(a, f)
+		}
+		x.Args = args
+		return f(x)
+	case Paren:
+		x.X = MapExpr(x.X, f)
+		return f(x)
+	case Arith:
+		x.L, x.R = MapExpr(x.L, f), MapExpr(x.R, f)
+		return f(x)
+	}
+	return f(e)
+}
+
+// MapUpdate applies MapExpr to every target path and value of an update.
+func MapUpdate(u Update, f func(Expr) Expr) Update {
+	out := Update{}
+	for _, c := range u.Clauses {
+		nc := Clause{Kind: c.Kind}
+		for _, a := range c.Actions {
+			na := Action{Value: MapExpr(a.Value, f)}
+			if p, ok := f(a.Path).(Path); ok {
+				na.Path = p
+			} else {
+				na.Path = a.Path
+			}
+			nc.Actions = append(nc.Actions, na)
+		}
+		out.Clauses = append(out.Clauses, nc)
+	}
+	return out
+}
